@@ -5,8 +5,8 @@ CONSTANTS
   CutClasses = {"empty", "comment", "certhdr", "certbody", "between", "keyhdr", "keybody", "nonl"}
   DamageClasses = {"comment", "certmarker", "certbody", "keymarker", "keybody", "armour"}
   EmitEdges = TRUE
-INVARIANTS StableKey TornNeverSilentlyDifferent AdvertisedIsServed
-PROPERTIES NeverRewritten MissingRegenerates UncachedLeavesFile
+INVARIANTS AdvertisedIsServed
+PROPERTIES StableKey TornNeverSilentlyDifferent ServedNeverChangesDuringARun NeverRewritten MissingRegenerates UncachedLeavesFile
 ACTION_CONSTRAINT Emit
 VIEW View
 CHECK_DEADLOCK FALSE
